@@ -1,21 +1,23 @@
 #!/usr/bin/env python3
 """eval_seeded.py [ids...] — re-evaluate every stored seeded change (round 1: seeded/<ID>/patchN.diff,
-round 2: seeded/<ID>/round2/patchN.diff; a `.rebased.diff` twin is used when the original context was
+round 2: seeded/<ID>/round2/patchN.diff, round 3: seeded/<ID>/round3/patchN.diff; a `.rebased.diff` twin is used when the original context was
 changed by a later fix: commit): apply to /repo, run the property's own quick check, if that misses the
 designated other checks and the own thorough tier (without sanitizer stages), undo. Writes meta.json
 next to the patches."""
 import json, os, re, subprocess, sys
 ids = sys.argv[1:] or [f'C{i:02d}' for i in range(1, 21)]
 # checks of the property the behaviour really belongs to (tried when the own check misses)
-OTHER = {('C03', 1, 2): ['C11'], ('C19', 1, 3): ['C20'], ('C03', 2, 3): ['C17'], ('C12', 2, 1): ['C20'], ('C19', 2, 3): ['C20'], ('C20', 2, 2): []}
+OTHER = {('C03', 1, 2): ['C11'], ('C19', 1, 3): ['C20'], ('C03', 2, 3): ['C17'], ('C12', 2, 1): ['C20'], ('C19', 2, 3): ['C20'], ('C20', 2, 2): [],
+         ('C01', 3, 1): ['C09'], ('C10', 3, 1): ['C19'], ('C10', 3, 3): ['C07']}
+ROUNDS = [int(x) for x in os.environ.get('ROUNDS', '1,2,3').split(',')]
 def run(check, tier):
     env = dict(os.environ, VERIF_NO_SANITIZE='1')
     out = subprocess.run(['/verif/check', check, '--tier', tier], capture_output=True, text=True, cwd='/verif', env=env)
     sigs = sorted(set(re.findall(r'signature: (.*)', out.stdout)))
     return {'exit': out.returncode, 'detected': out.returncode == 1, 'signatures': sigs[:6]}
 for pid in ids:
-    for rnd, d in ((1, f'/verif/seeded/{pid}'), (2, f'/verif/seeded/{pid}/round2')):
-        if not os.path.isdir(d): continue
+    for rnd, d in ((1, f'/verif/seeded/{pid}'), (2, f'/verif/seeded/{pid}/round2'), (3, f'/verif/seeded/{pid}/round3')):
+        if not os.path.isdir(d) or rnd not in ROUNDS: continue
         meta = {'property': pid, 'round': rnd, 'source': 'fresh sub-agent given only the property text and a scratch worktree', 'mutations': []}
         for f in sorted(os.listdir(d)):
             m = re.match(r'patch(\d+)\.diff$', f)
